@@ -33,6 +33,11 @@ func roundTrip(k key.Key, form int) (key.Key, error) {
 			return nil, err
 		}
 		var k2 key.Key
+		if len(b)%2 == 0 {
+			// the destination already holds another key: decoding must replace it, not merge into it
+			k2 = key.Key{iana.KeyParameterKty: iana.KeyTypeEC2, iana.KeyParameterAlg: iana.AlgorithmES384, iana.EC2KeyParameterCrv: 2,
+				iana.EC2KeyParameterD: make([]byte, 48), iana.EC2KeyParameterX: make([]byte, 48), iana.EC2KeyParameterY: make([]byte, 48), iana.KeyParameterBaseIV: []byte{1}}
+		}
 		return k2, key.UnmarshalCBOR(b, &k2)
 	case 2:
 		b, err := json.Marshal(k)
@@ -96,6 +101,8 @@ func streamDispatch(c *ctx) {
 		}
 		if c.r.intn(3) == 0 {
 			k[iana.KeyParameterKid] = c.r.bytes(5)
+		} else if c.r.intn(2) == 0 {
+			k[iana.KeyParameterKid] = []byte("rotated-key") // different keys and algorithms under one key id
 		}
 		if c.r.intn(4) == 0 {
 			fam := []int{1, 2}
